@@ -52,6 +52,26 @@ def values():
             c[1] += 1
         else:
             c[2] += 1
+    gain = {}
+    tot = [0, 0, 0, 0]
+    for mp in glob.glob(os.path.join(HERE, 'seeded', 'C*', 'meta.json')):
+        m = json.load(open(mp))
+        r = m.get('round', 1)
+        f = m.get('final_version_of_the_checks', {})
+        fm = m.get('first_measurement', {})
+        if f.get('status') == 'confirmed':
+            tot[0 if f.get('detected_by') else (1 if f.get('undecided_in') else 2)] += 1
+        else:
+            tot[3] += 1
+        if fm and not fm.get('detected_by') and f.get('status') == 'confirmed':
+            g = gain.setdefault(r, [0, 0])
+            g[1] += 1
+            if f.get('detected_by'):
+                g[0] += 1
+    v['SEEDFINALLINE'] = ('tools/seedfinal.py over all %d stored seeds with the final checks: %d detected, %d undecided, %d missed, '
+                          '%d no longer apply to the moved /repo' % (sum(tot), tot[0], tot[1], tot[2], tot[3]))
+    for r, g in gain.items():
+        v['R%dGAINLINE' % r] = 'Of the %d round-%d seeds missed or undecided at first measurement (and still applicable), %d are detected by the final checks' % (g[1], r, g[0])
     for r, c in fin.items():
         v['R%dFINAL' % r] = '%d detected, %d undecided, %d missed' % (c[0], c[1], c[2]) + (', %d no longer apply' % c[3] if c[3] else '')
     return v
